@@ -203,6 +203,11 @@ class World:
                         holders = [k[:30] for k, v in self.live_tables.items() if name in v][:3]
                         self.finding('C02', 'a chunk still referenced by a remaining snapshot was deleted',
                                      chunk=name, actor=actor, referenced_by=holders)
+                        owners = {s.user for s in self.snaps.values()
+                                  if s.location in self.live_tables and name in self.live_tables[s.location]}
+                        if owners and actor not in owners and self.encrypted:
+                            self.finding('C06', f'user {actor} caused the removal of a chunk referenced only by snapshots of '
+                                                f'{sorted(owners)}', chunk=name)
                     if fam is not None and actor_family is not None and fam != actor_family:
                         self.finding('C06', f'user {actor} ({actor_family}) deleted a chunk of key family {fam}', chunk=name)
                         self.finding('C08', f'a chunk of another key family was deleted by {actor}', chunk=name)
@@ -295,6 +300,90 @@ class World:
             bad = [p for p in set(got) | set(rec.files) if got.get(p) != rec.files.get(p)][:4]
             self.finding(prop, 'restore of a remaining snapshot differs from the captured contents',
                          snapshot=name[:16], owner=rec.user, paths=bad)
+
+    # -- interrupted commands (orphan-carrying states for C08) ------------------------------------------
+    async def drain(self):
+        """Wait for tasks a failed gather() left running, so that no destructive work overlaps the
+        next command (the README declares that unsupported)."""
+        for _ in range(50):
+            pending = [t for t in asyncio.all_tasks() if t is not asyncio.current_task() and not t.done()]
+            if not pending and self.store.in_flight == 0:
+                return
+            if pending:
+                await asyncio.gather(*pending, return_exceptions=True)
+            else:
+                await asyncio.sleep(0.005)
+
+    async def snapshot_interrupted(self, user, fileset, mode='no-snapshot-object'):
+        """A snapshot that fails for good: either the snapshot object upload fails (all chunks are
+        orphans) or the k-th chunk upload fails."""
+        self.write_fileset(user, fileset)
+        repo = await self.repo(user)
+        if mode == 'no-snapshot-object':
+            plan = {'op': 'upload', 'prefix': 'snapshots/', 'count': None}
+        else:
+            plan = {'op': 'upload_stream', 'prefix': 'data/', 'nth': self.r.randrange(1, 6), 'count': None}
+        self.store.faults = [plan]
+        failed = False
+        try:
+            with rep.capture():
+                await repo.snapshot(paths=[Path(self.srcdir(user))])
+        except Exception:
+            failed = True
+        finally:
+            self.store.faults = []
+        await self.drain()
+        self.ops_log.append(('snapshot-interrupted', user, mode, failed))
+        if failed:
+            self.count('interrupted_snapshots')
+        else:
+            # the fault never fired (fewer uploads than nth): a regular snapshot happened
+            loc = [e['name'] for e in self.store.log[-3:] if e['op'] == 'upload' and e['name'].startswith('snapshots/')]
+            self.count('interrupted_snapshot_completed_anyway')
+            self.unknown_snapshots = True
+        return failed
+
+    async def delete_interrupted(self, user, names):
+        repo = await self.repo(user)
+        self.store.faults = [{'op': 'delete', 'prefix': 'data/', 'nth': self.r.randrange(0, 4), 'count': None}]
+        failed = False
+        try:
+            with rep.capture():
+                await repo.delete_snapshots(list(names), confirm=False)
+        except Exception:
+            failed = True
+        finally:
+            self.store.faults = []
+        await self.drain()
+        for n in names:
+            if self.snaps[n].location not in self.store.objects:
+                self.deleted[n] = self.snaps.pop(n)
+        self.ops_log.append(('delete-interrupted', user, [n[:10] for n in names], failed))
+        if failed:
+            self.count('interrupted_deletes')
+        return failed
+
+    # -- listings / unlock (C06) -----------------------------------------------------------------------
+    async def list_snapshots(self, user, **kw):
+        repo = await self.repo(user)
+        with rep.capture() as cap:
+            await repo.list_snapshots(**kw)
+        return cap.stdout
+
+    async def list_files(self, user, **kw):
+        repo = await self.repo(user)
+        with rep.capture() as cap:
+            await repo.list_files(**kw)
+        return cap.stdout
+
+    async def try_unlock(self, key, password):
+        repo = rep.new_repo(self.backend('prober'), 2)
+        try:
+            with rep.capture():
+                await repo.unlock(password=password, key=key)
+            return True, None
+        except Exception as e:
+            return False, e
 
     # -- audits via the independent reader ----------------------------------------------------------
     def referenced_by_family(self, objects=None):
